@@ -353,6 +353,14 @@ def check(case):
         wn2 = wn[0] * (1 + 0.01 * k) + (wn - wn[0]) * k
         w2 = w * k if pass_w else midpoint_widths(wn2)[1]
         lo2, hi2 = wn2 - w2 / 2, wn2 + w2 / 2
+        if n >= 3:
+            # ... the first request on that second grid being one that is refused (a spectrum one element short; the caller
+            # catches the error and asks again properly)
+            try:
+                with np.errstate(all='ignore'):
+                    fb.bindown(wn2[pn].copy(), f1[pn][:-1].copy(), grid_width=(w2[pn].copy() if pass_w else None))
+            except Exception:
+                out.cls('refused-call-on-second-grid')
         r5 = cut(out, 'flux-bindown', fb.bindown, wn2[pn].copy(), f1[pn].copy(), grid_width=(w2[pn].copy() if pass_w else None))
         g5 = np.asarray(r5[1], dtype=float)
         for i in range(nt):
